@@ -37,7 +37,7 @@ CHECKS = {
    note="Trusted: model. Concurrent scan guarantees are judged by the concurrency engine when registered."),
  "C16": dict(engine="seq", cat="exploration", ref="§5 C16",
    technique="differential property testing (same generated program with cache on and off, both vs. the reference model)",
-   text="Persistent programs are executed with the read cache on and off; both executions must agree with the model call by call, so a stale cache entry masking an update, delete, re-creation, TTL change or restart is a failure.",
+   text="Persistent programs are executed with the read cache on and off; both executions must agree with the model call by call, so a stale cache entry masking an update, delete, re-creation, TTL change or restart is a failure. A second campaign drives ClockCache alone (insert/get/remove/evict/clear/adjust_watermarks with small watermarks) against an exact mirror: accounting, remove-then-miss, eviction to the low watermark without evicting referenced entries when unreferenced ones suffice.",
    note="Trusted: model; executions are compared through the model because automatic timestamps depend on per-process hash seeds."),
  "C02": dict(engine="crash", cat="fault_enumeration", ref="§5 C02",
    technique="crash-point enumeration over the recorded device-write trace of proptest-generated workloads (prefix x subset of un-synced writes x sector tearing), each image reopened and judged by a per-key history-window oracle",
@@ -59,13 +59,16 @@ CHECKS = {
    technique="structure-aware image fuzzing (proptest mutation programs over valid images + codec-built forgeries with re-stamped checksums/tokens) with a no-panic / no-hang / no-takeover oracle in journaled worker processes",
    text="Thousands of random, mutated and forged device images per run are opened by the real code in worker processes; the oracle requires clean termination (Ok or Err), no panic in any thread, a working probe workload on opened stores, and byte-identical files for rejected foreign or invalid devices.",
    note="Trusted: worker journal (image saved before it is opened) for attribution of aborts/hangs; watchdog 30 s per call; device sizes 17-104 blocks."),
+ "C15": dict(engine="unit", cat="exploration", ref="§5 C15",
+   technique="differential property testing of migrate() against an independent newest-wins decode of generated legacy sources (real v1/v2 workload files incl. crashed ones + codec-synthesised images)",
+   text="Generated legacy sources are migrated with/without the ambiguity opt-in and with absent/pre-existing destinations; the destination must decode (independent codec) to exactly the source's newest generations, the source bytes must be unchanged, failures must leave nothing behind.",
+   note="Trusted: layout codec (decoder and legacy encoder); expected contents skip extents named by an active journal, as recovery does."),
 }
 
 NOT_YET = {
  "C07": "concurrency engine not registered yet (in construction)",
  "C08": "concurrency engine not registered yet (in construction)",
  "C09": "fault engine not registered yet (in construction)",
- "C15": "migration engine not registered yet (in construction)",
  "C18": "termination checks not registered yet (in construction)",
  "C19": "write-behind check not registered yet (in construction)",
  "C20": "sanitizer runs not registered yet (in construction)",
